@@ -272,7 +272,7 @@ pub fn run(ctx: &Ctx) -> (Stats, Report) {
     // A: all dates x critical times
     let noon = pools::hms(12, 0, 0, 0) as i64;
     let fixed: Vec<i64> = vec![0, 1, noon - 1, noon, noon + 1, (US_PER_DAY - 1) as i64, pools::hms(11, 59, 0, 0) as i64, pools::hms(23, 59, 59, 0) as i64];
-    let nrand = if ctx.thorough { 400 } else { 4 };
+    let nrand = if ctx.thorough { 400 } else { 120 };
     let a = par_sweep(c.len() as u64, 1 << 13, |range, st| {
         for i in range {
             let r = &c.rows[i as usize];
@@ -461,7 +461,7 @@ pub fn run(ctx: &Ctx) -> (Stats, Report) {
     st.section("validity_grid", &mut mark);
 
     // D: ordering over structured and random pairs
-    let pool = pools::ts_pool(seed, if ctx.thorough { 20_000 } else { 2000 });
+    let pool = pools::ts_pool(seed, if ctx.thorough { 20_000 } else { 6000 });
     let mut pairs: Vec<(i128, i128)> = vec![];
     for (k, &a) in pool.iter().enumerate() {
         for d in [0i128, 1, -1, US_PER_SEC, -US_PER_SEC, US_PER_DAY, -US_PER_DAY, US_PER_DAY - 1, 1 - US_PER_DAY] {
